@@ -568,22 +568,36 @@ impl World {
         // delayed actions: apply backup code removals (so a used code really is used), drop the rest
         let das = self.sim.take_delayed();
         let mut keep = Vec::new();
+        let mut removed_codes: Vec<String> = Vec::new();
         for da in das {
             match da {
-                DelayedAction::BackupCodeRemoval(_) | DelayedAction::PwUpgrade(_) => keep.push(da),
+                DelayedAction::BackupCodeRemoval(b) => {
+                    removed_codes.push(b.code_to_remove.clone());
+                    keep.push(DelayedAction::BackupCodeRemoval(b));
+                }
+                DelayedAction::PwUpgrade(_) => keep.push(da),
                 _ => {}
             }
         }
+        let mut removal_failed = false;
         if !keep.is_empty() {
             self.t += 1;
             let d = self.sim.apply_delayed(keep, secs(self.t)).await;
             for e in d.errors {
+                removal_failed = true;
                 acc.inconclusive(&format!("delayed action failed: {e}"));
             }
         }
         for c in pending_codes {
-            self.accts[ai].unused.retain(|x| *x != c);
-            self.accts[ai].consumed.push(c);
+            if removed_codes.contains(&c) && !removal_failed {
+                // verified by the server and its removal is now stored: the code is used up
+                self.accts[ai].unused.retain(|x| *x != c);
+                self.accts[ai].consumed.push(c);
+            } else {
+                // the server accepted the code but queued no removal for it: it stays usable on the
+                // server, so the harness keeps treating it as unused (counted, not judged here)
+                acc.count("unjudged.backup_code_accepted_without_removal_action");
+            }
         }
         while self.sim.audit.audit_rx().try_recv().is_ok() {}
         if self.seqs_run % 512 == 0 {
